@@ -132,6 +132,20 @@ def r2(ctx):
                   "by `namespace has a successor`: %s; spec: %s" % (rows, want), b.sp)
     ib = f.body("store::fs::bounds::increment_by_one")
     ctx.touch(ib)
+    # the successor primitive the namespace end relies on, evaluated on concrete byte strings (shared with C02.R3)
+    from . import C02
+    sub = type(ctx)(ctx.prop, ctx.tier, ctx.facts, ctx.cfg)
+    C02.r3(sub)
+    for o in sub.obligations:
+        if "byte-string-table" not in o["key"] or "increment_by_one" not in o["key"]:
+            continue
+        o = dict(o)
+        o["key"] = o["key"].replace("C02.R3", "C16.R2")
+        o["rule"] = "C16.R2"
+        ctx.obligations.append(o)
+        if o["status"] != "holds":
+            ctx.violations.append(o)
+    ctx.analysed_bodies |= sub.analysed_bodies
     ctx.floor("C16.R2", 7)
 
 
